@@ -12,7 +12,15 @@ from mutants.catalogue import MUTANTS  # noqa
 
 
 def apply(m, dst):
-    for ed in m["edits"]:
+    for sd in m.get("sed", []):
+        p = os.path.join(dst, sd["file"])
+        s = open(p).read()
+        for a, b in sd["subs"]:
+            if a not in s:
+                raise SystemExit("variant %s: %r not found in %s" % (m["id"], a, sd["file"]))
+            s = s.replace(a, b)
+        open(p, "w").write(s)
+    for ed in m.get("edits", []):
         p = os.path.join(dst, ed["file"])
         s = open(p).read()
         if "first_of" in ed:   # the text occurs several times (e.g. locked and single-thread class): take the first
@@ -51,7 +59,7 @@ def run_one(m, tier, keep):
 
 def main():
     ap = argparse.ArgumentParser()
-    ap.add_argument("cmd", choices=["list", "run"])
+    ap.add_argument("cmd", choices=["list", "run", "benign"])
     ap.add_argument("ids", nargs="*")
     ap.add_argument("--tier", default="quick")
     ap.add_argument("--keep", action="store_true")
@@ -60,6 +68,24 @@ def main():
         for m in MUTANTS:
             print(m["id"], ",".join(m["props"]), "-", m["what"])
         return
+    if a.cmd == "benign":
+        # semantics-preserving variants: every listed check must stay silent (exit 0)
+        from mutants.benign import BENIGN
+        bad = 0
+        out = []
+        for m in [b for b in BENIGN if not a.ids or b["id"] in a.ids]:
+            res = run_one(m, a.tier, a.keep)
+            for prop, r in res.items():
+                verdict = "SILENT" if r["rc"] == 0 else ("FALSE-ALARM" if r["rc"] == 1 else "HARNESS-FAILURE")
+                bad += r["rc"] != 0
+                line = "| %s | %s | %s | %s | %s | %ss | %s |" % (m["id"], m["what"], prop, a.tier, verdict, r["wall"], "; ".join(r["keys"])[:160])
+                print(line, flush=True)
+                out.append(line)
+                if r["rc"] == 2:
+                    print(r.get("stderr", ""))
+        with open(os.path.join(ROOT, "mutants", "BENIGN_RESULTS.md"), "a") as f:
+            f.write("\n".join(out) + "\n")
+        sys.exit(1 if bad else 0)
     todo = [m for m in MUTANTS if not a.ids or m["id"] in a.ids]
     lines = []
     for m in todo:
